@@ -136,6 +136,8 @@ class ServerWorld:
         return t
 
     def run_tasks(self):
+        if getattr(self, 'hold_tasks', False):
+            return
         n = 0
         while self.tasks:
             t = self.tasks.pop(0)
